@@ -170,4 +170,26 @@ PROPS = {
         essential={"sched_dfs": {"schedules": 50.0, "dfs:exhaustive_within_preemption_bound": 0.12}, "sched_pct": {"schedules": 50.0, "schedule:worker_finished_in_coordinator_window": 1.0}},
         assumptions=["the shim's model of mutexes/condition variables follows POSIX semantics without spurious wake-ups"],
     ),
+    "C09": dict(
+        level="exploration",
+        level_text="Generated fit problems (1..4 dims, orders 0..4, penalty orders 0..order, irregular knots and abscissae, dense and sparse data, weights over 2^+-5 with exact zeros, smoothing 0..1e6, scalar or per-dimension arguments, shuffled listing) are checked against an independent dense long-double assembly of the normal equations: the returned coefficients must satisfy A c = r componentwise to single precision (sound for any conditioning), agree with the reference minimiser when cond<1e4, and obey the metamorphic relations (spline data reproduced at zero smoothing; zero-weight entries and listing order irrelevant; scalar vs per-dimension arguments and the C wrapper bit-identical).",
+        level_note="Well-posedness is by construction (several abscissae per knot interval) and verified: cases whose reference Cholesky fails or whose condition estimate exceeds 1e6 are discarded and counted. The penalty matrix of the reference is built from the textbook derivative-coefficient formula.",
+        technique="property-based testing (rapidcheck) with a reference-model oracle (dense long-double normal equations) and metamorphic relations",
+        units=[U("c09_fit", "c09_fit.cpp", quick=1600, thorough=200000, names=["objective", "metamorphic"])],
+        rule="Non-trivial: ndim>=2, or smoothing>0, or sparse data, or non-unit weights; distinct = hash(orders, penalty orders, smoothing, knots, data, weights).",
+        essential={"objective": {"smoothing>0": 0.3, "sparse": 0.1, "weights:varying": 0.2, "listing:shuffled": 0.2, "compared_with_reference_minimiser": 0.2, "scalar_vs_vector_and_C_compared": 0.2}},
+        assumptions=["CHOLMOD/OpenBLAS are uninstrumented system libraries"],
+    ),
+    "C11": dict(
+        level="exploration",
+        level_text="Every exported NNLS solver (block3 as used by fit, block, block_updown, Lawson-Hanson in normal-equation and least-squares mode) is run on generated symmetric positive-definite systems passed exactly as fit passes them (full storage, stype 0). Oracles: enumeration of all 2^n active sets in long double for n<=10; constructed optima (b := A x0 - g0 with complementary x0,g0>=0) with exactly-zero and tied components for any n up to 200 (sparse banded); and the KKT conditions on the returned vector with tolerances tied to each solver's stated tolerance. Each solve runs in a forked child so exit(1), aborts and hangs are failing cases.",
+        level_note="Tolerances: block3 n*eps*1e5, block/block_updown 1e-6 (their KKT_TOL, absolute), Lawson-Hanson 0 as passed; plus 64*n*eps*(|A||x|+|b|). OMP_NUM_THREADS=2 for block3's line search (C12 owns the schedule dimension).",
+        technique="property-based testing (rapidcheck, fork-isolated) with an exhaustive-enumeration reference and constructed-optimum oracle",
+        units=[U("c11_nnls", "c11_nnls.cpp", quick=6000, thorough=1000000, names=["kkt_small", "kkt_large_sparse"])],
+        rule="systems A = M'M (M random dense/sparse/banded with sqrt(delta) I rows, delta in 1e-6..1, column scaling 2^+-15 for the badly-scaled class); b random or constructed "
+             "from a chosen optimum. Non-trivial: the minimiser has at least one zero and one positive component; distinct = hash(solver, A, b).",
+        essential={"kkt_small": {"solver:block3": 0.1, "solver:block": 0.1, "solver:block_updown": 0.1, "solver:lawson_hanson_normal": 0.1, "solver:lawson_hanson_lsq": 0.1,
+                                 "class:degenerate_constructed": 0.1, "class:badly_scaled": 0.1, "active_set:mixed": 0.3}},
+        assumptions=["uniqueness of the minimiser (A positive definite by construction)"],
+    ),
 }
